@@ -23,6 +23,7 @@ type c04Group struct {
 	mws     []int // current middleware ids (inherited first)
 	own     []int // ids declared on this group itself
 	parent  int
+	useSeq  int // when this group last registered its catch-all routes (creation with middleware, or Use)
 }
 
 func genC04(rng *rand.Rand, n int, emit func(Case), dist map[string]int) {
@@ -58,9 +59,12 @@ func genC04(rng *rand.Rand, n int, emit func(Case), dist map[string]int) {
 			arg      string
 			code     int
 		}
+		mwKinds := map[int]int{}
+		useSeq := 0
 		mkMW := func(allowRewrite bool) (echo.MiddlewareFunc, Sx, mwDesc) {
 			mwID++
 			d := mwDesc{id: mwID}
+			defer func() { mwKinds[d.id] = d.kind }()
 			switch r := rng.Intn(40); {
 			case r == 0:
 				d.kind, d.code = 2, []int{401, 403, 500}[rng.Intn(3)]
@@ -161,6 +165,8 @@ func genC04(rng *rand.Rand, n int, emit func(Case), dist map[string]int) {
 				fs, sxs, ids := mkMWs(rng.Intn(4))
 				g := &c04Group{id: len(groups), prefix: prefix, mws: ids, own: ids, parent: -1}
 				g.g = e.Group(prefix, fs...)
+				useSeq++
+				g.useSeq = useSeq
 				groups = append(groups, g)
 				ops = append(ops, L(I(2), I(g.id), I(-1), S(prefix), L(sxs...)))
 			case r <= 7 && len(groups) > 0:
@@ -169,6 +175,8 @@ func genC04(rng *rand.Rand, n int, emit func(Case), dist map[string]int) {
 				fs, sxs, ids := mkMWs(rng.Intn(3))
 				g := &c04Group{id: len(groups), host: p.host, prefix: p.prefix + prefix, mws: append(append([]int(nil), p.mws...), ids...), own: ids, parent: p.id}
 				g.g = p.g.Group(prefix, fs...)
+				useSeq++
+				g.useSeq = useSeq
 				groups = append(groups, g)
 				ops = append(ops, L(I(2), I(g.id), I(p.id), S(prefix), L(sxs...)))
 			case r == 8:
@@ -180,6 +188,8 @@ func genC04(rng *rand.Rand, n int, emit func(Case), dist map[string]int) {
 				fs, sxs, ids := mkMWs(rng.Intn(3))
 				g := &c04Group{id: len(groups), host: host, mws: ids, own: ids, parent: -1}
 				g.g = e.Host(host, fs...)
+				useSeq++
+				g.useSeq = useSeq
 				groups = append(groups, g)
 				ops = append(ops, L(I(3), I(g.id), S(host), L(sxs...)))
 				addRoute(g.id) // every host router gets at least one route
@@ -187,6 +197,8 @@ func genC04(rng *rand.Rand, n int, emit func(Case), dist map[string]int) {
 				g := groups[rng.Intn(len(groups))]
 				fs, sxs, ids := mkMWs(1 + rng.Intn(2))
 				g.g.Use(fs...)
+				useSeq++
+				g.useSeq = useSeq
 				g.mws = append(g.mws, ids...)
 				g.own = append(g.own, ids...)
 				ops = append(ops, L(I(4), I(g.id), L(sxs...)))
@@ -196,6 +208,8 @@ func genC04(rng *rand.Rand, n int, emit func(Case), dist map[string]int) {
 				for u := 1 + rng.Intn(3); u > 0; u-- {
 					fs, sxs, ids := mkMWs(1)
 					g.g.Use(fs...)
+					useSeq++
+					g.useSeq = useSeq
 					g.mws = append(g.mws, ids...)
 					g.own = append(g.own, ids...)
 					ops = append(ops, L(I(4), I(g.id), L(sxs...)))
@@ -269,6 +283,7 @@ func genC04(rng *rand.Rand, n int, emit func(Case), dist map[string]int) {
 			}
 			// ---- predicate on the implementation's trace alone
 			ok, why := true, ""
+			knownKey := ""
 			if panicked {
 				ok, why = false, "ServeHTTP panicked"
 			}
@@ -352,6 +367,58 @@ func genC04(rng *rand.Rand, n int, emit func(Case), dist map[string]int) {
 					}
 				}
 			}
+			// group middleware runs for every request under the prefix that no route outside the group claims.
+			// Judged for the innermost group with middleware (own or inherited) that covers the request (its catch-all
+			// routes were registered last among groups with the same prefix); skipped when a layer above
+			// answered by itself.
+			if ok {
+				shortCircuit := false
+				for id := range seenEnter {
+					shortCircuit = shortCircuit || mwKinds[id] == 2
+				}
+				routerHost := ""
+				if hostUsed[host] {
+					routerHost = host
+				}
+				var best *c04Group
+				for _, g := range groups {
+					under := g.prefix == "" || effPath == g.prefix || strings.HasPrefix(effPath, g.prefix+"/")
+					if len(g.mws) == 0 || !under || g.host != routerHost {
+						continue
+					}
+					if best == nil || len(g.prefix) > len(best.prefix) || len(g.prefix) == len(best.prefix) && g.useSeq > best.useSeq {
+						best = g
+					}
+				}
+				// a route handler that ran is judged by the chain check above (its chain is the snapshot taken
+				// when it was registered); this clause is about requests that no route handler served
+				_, claimed := routes[handlerID]
+				if best != nil && !shortCircuit && !claimed {
+					dist["group_coverage_judged"]++
+					for _, id := range best.mws {
+						if seenEnter[id] == 0 {
+							ok, why = false, fmt.Sprintf("Host %q %s %s lies under group %d (host %q prefix %q) and is not claimed by a route outside it, but the group's middleware %d did not run (status %d)", host, method, effPath, best.id, best.host, best.prefix, id, rec.Code)
+							// known finding D11 seen through groups: the path is registered (for other methods) on a node that
+							// carries this group's not-found route, and the catch-all WILDCARD of an enclosing group ends the search first
+							exists, outer := false, false
+							for _, ri := range routes {
+								if ri.host == routerHost && c04PatMatches(ri.full, effPath) {
+									exists = true
+								}
+							}
+							for _, g2 := range groups {
+								if g2.host == routerHost && len(g2.mws) > 0 && len(g2.prefix) < len(best.prefix) && (g2.prefix == "" || strings.HasPrefix(effPath, g2.prefix+"/")) {
+									outer = true
+								}
+							}
+							if exists && outer && handlerID == 1000 {
+								knownKey = "known:router.nf_wildcard_preempts"
+							}
+							break
+						}
+					}
+				}
+			}
 			in := L(L(ops...), L(S(host), S(method), S(path)))
 			cs := Case{In: in, Out: L(L(trace...), I(finalErr)), Ok: ok, Why: why,
 				Human: fmt.Sprintf("%d registration ops, %d groups; Host=%q %s %s (routed as %q) -> trace %s status %d", len(ops), len(groups), host, method, path, effPath, Show(L(trace...)), rec.Code)}
@@ -364,6 +431,9 @@ func genC04(rng *rand.Rand, n int, emit func(Case), dist map[string]int) {
 			if len(order) >= 3 && grp {
 				cs.Key = Show(in)
 			}
+			if knownKey != "" {
+				cs.Key = knownKey
+			}
 			dist[fmt.Sprintf("layers_%02d", len(order))]++
 			if handlerID >= 1000 {
 				dist[fmt.Sprintf("builtin_handler_%d", handlerID)]++
@@ -371,4 +441,33 @@ func genC04(rng *rand.Rand, n int, emit func(Case), dist map[string]int) {
 			emit(cs)
 		}
 	}
+}
+
+// c04PatMatches: does the route pattern (":id" segments, trailing "*") match the path exactly
+func c04PatMatches(pat, p string) bool {
+	if pat == "" {
+		pat = "/"
+	}
+	ps, xs := strings.Split(pat, "/"), strings.Split(p, "/")
+	for i, seg := range ps {
+		if seg == "*" {
+			return len(xs) >= i+1
+		}
+		if i >= len(xs) {
+			return false
+		}
+		if strings.HasPrefix(seg, ":") {
+			if xs[i] == "" {
+				return false
+			}
+			if i == len(ps)-1 {
+				return true // a trailing parameter takes the rest
+			}
+			continue
+		}
+		if seg != xs[i] {
+			return false
+		}
+	}
+	return len(ps) == len(xs)
 }
